@@ -611,6 +611,36 @@ func (w *world) interleavedSync(resp, req *replica, limit int) {
 	}
 }
 
+// staleBranch (guard-directed for the receiver's rebuild decision): a requester reduced to a snapshot asks a responder
+// that has diverged BELOW that snapshot - it holds a change on top of the snapshot and, received later, a change made
+// by a lagging writer that never saw the snapshot (its snapshot base is older) - with a limit that puts both into one
+// batch. Depending on the ids the current-root change or the older-based one is stored first.
+func (w *world) staleBranch() {
+	p := w.r.Perm(len(w.reps))
+	q, rr, c := w.reps[p[0]], w.reps[p[1]], w.reps[p[2]]
+	const inf = 1 << 30
+	steps := []func(){
+		func() { w.fullSync(c, rr, inf) },    // the responder learns what the lagging writer has
+		func() { w.fullSync(q, rr, inf) },    // ... and what the requester has
+		func() { w.localAdd(rr, true) },      // snapshot: the responder's root moves to it
+		func() { w.fullSync(rr, q, inf) },    // the requester gets the snapshot and reduces to it
+		func() { w.localAdd(rr, false) },     // a change on top of the snapshot (base = the snapshot)
+		func() { w.localAdd(c, false) },      // the lagging writer's change (base = its older root)
+		func() { w.fullSync(c, rr, inf) },    // the responder receives it (rebuild below the snapshot)
+		func() { w.fullSync(rr, q, inf) },    // the answer carries both kinds of change in one batch
+	}
+	for _, f := range steps {
+		if w.failed {
+			return
+		}
+		f()
+	}
+	w.r.Count("op.stale-branch")
+	if q.tree.Root().Id != w.rootId {
+		w.r.Count("op.stale-branch.requester-reduced")
+	}
+}
+
 // scramble: the set a full sync would transfer, permuted, partitioned into a few batches, with duplicates,
 // each announced with the sender's heads and snapshot path ("all permutations and partitions").
 func (w *world) scramble(resp, req *replica) {
